@@ -249,6 +249,25 @@ func (k *keyer) key1(v ssa.Value) string {
 		return "p:" + x.Name()
 	case *ssa.FreeVar:
 		return "fv:" + x.Name()
+	case *ssa.Alloc:
+		// the local a by-value parameter is spilled into: written exactly once,
+		// from the parameter
+		var only *ssa.Store
+		n := 0
+		if refs := x.Referrers(); refs != nil {
+			for _, r := range *refs {
+				if st, ok := r.(*ssa.Store); ok && st.Addr == ssa.Value(x) {
+					only = st
+					n++
+				}
+			}
+		}
+		if n == 1 {
+			if pm, ok := only.Val.(*ssa.Parameter); ok {
+				return "spill:" + pm.Name()
+			}
+		}
+		return k.uniq(v)
 	case *ssa.Global:
 		return "g:" + x.String()
 	case *ssa.Field:
@@ -266,6 +285,15 @@ func (k *keyer) key1(v ssa.Value) string {
 			case *ssa.Global:
 				if !k.storedGlobal[a] {
 					return "*" + k.key(a)
+				}
+			}
+			switch a := x.X.(type) {
+			case *ssa.Field, *ssa.UnOp, *ssa.Parameter:
+				// pointee of a pointer held in an immutable value (field of a value
+				// parameter, canonical load): assumed not written by the function
+				// under analysis between two tests
+				if kx := k.key(a); !strings.Contains(kx, "#") {
+					return "*" + kx
 				}
 			}
 			return k.uniq(v)
@@ -302,6 +330,15 @@ func (k *keyer) key1(v ssa.Value) string {
 				}
 				return name + "(" + strings.Join(as, ",") + ")"
 			}
+			// read-only accessors of nmt.Proof (value receiver, no side effects)
+			if o, ok := f.Object().(*types.Func); ok && pkgPathOf(o) == "github.com/celestiaorg/nmt" && len(x.Call.Args) == 1 {
+				switch o.Name() {
+				case "IsOfAbsence", "IsEmptyProof", "Start", "End":
+					if ka := k.key(x.Call.Args[0]); !strings.Contains(ka, "#") {
+						return "nmt." + o.Name() + "(" + ka + ")"
+					}
+				}
+			}
 		}
 		return k.uniq(v)
 	}
@@ -323,7 +360,53 @@ func (k *keyer) predKey(cond ssa.Value) (string, bool) {
 		}
 		return "(" + x + " == " + y + ")", neg
 	}
+	// len(x) > 0, len(x) >= 1, 0 < len(x)  ==  !(len(x) == 0); len(x) < 1, len(x) <= 0 == (len(x) == 0)
+	if b, ok := a.Base.(*ssa.BinOp); ok {
+		x, y, op := b.X, b.Y, b.Op
+		if isLenCall(y) && !isLenCall(x) { // mirror so that len is on the left
+			x, y = y, x
+			switch op {
+			case token.LSS:
+				op = token.GTR
+			case token.GTR:
+				op = token.LSS
+			case token.LEQ:
+				op = token.GEQ
+			case token.GEQ:
+				op = token.LEQ
+			}
+		}
+		if isLenCall(x) {
+			if c, ok := y.(*ssa.Const); ok && c.Value != nil {
+				if n, exact := constant.Int64Val(c.Value); exact {
+					zk := eqKey("c:0", k.key(x))
+					switch {
+					case op == token.GTR && n == 0, op == token.GEQ && n == 1:
+						return zk, !a.Neg
+					case op == token.LSS && n == 1, op == token.LEQ && n == 0:
+						return zk, a.Neg
+					}
+				}
+			}
+		}
+	}
 	return k.key(a.Base), a.Neg
+}
+
+func eqKey(x, y string) string {
+	if x > y {
+		x, y = y, x
+	}
+	return "(" + x + " == " + y + ")"
+}
+
+func isLenCall(v ssa.Value) bool {
+	c, ok := v.(*ssa.Call)
+	if !ok {
+		return false
+	}
+	b, ok := c.Call.Value.(*ssa.Builtin)
+	return ok && b.Name() == "len"
 }
 
 // ---- the walk ----
@@ -385,6 +468,12 @@ func gateWalk(p *Program, fn *ssa.Function, targets map[*ssa.BasicBlock]bool, cu
 // gateWalkOpts: barrier blocks are entered but never left (a path that passes a
 // barrier block is discharged).
 func gateWalkOpts(p *Program, fn *ssa.Function, targets map[*ssa.BasicBlock]bool, cut EdgeCut, start *ssa.BasicBlock, barrier map[*ssa.BasicBlock]bool) GateResult {
+	return gateWalkFacts(p, fn, targets, cut, start, barrier, nil)
+}
+
+// gateWalkFacts additionally seeds the walk with assumed facts (canonical
+// predicate key -> truth value): "is a success return reachable when ...".
+func gateWalkFacts(p *Program, fn *ssa.Function, targets map[*ssa.BasicBlock]bool, cut EdgeCut, start *ssa.BasicBlock, barrier map[*ssa.BasicBlock]bool, seed map[string]bool) GateResult {
 	if len(fn.Blocks) == 0 {
 		return GateResult{}
 	}
@@ -392,7 +481,11 @@ func gateWalkOpts(p *Program, fn *ssa.Function, targets map[*ssa.BasicBlock]bool
 	if start == nil {
 		start = fn.Blocks[0]
 	}
-	init := &walkState{b: start, f: factSet{m: map[string]bool{}}}
+	f0 := factSet{m: map[string]bool{}}
+	for key, val := range seed {
+		f0 = f0.with(key, val)
+	}
+	init := &walkState{b: start, f: f0}
 	visited := map[string]bool{}
 	queue := []*walkState{init}
 	res := GateResult{}
